@@ -38,11 +38,7 @@ Fixpoint runl (ip:list positive) (h:heap) (w:world) (c:Comp value) {struct c} : 
           if unmodelled e then (Done h' w' (inr e) d, l1)
           else let (o2, l2) := cont (runl ip h' w' (hd e)) 0%nat k in (updd o2 d, l1 ++ l2)
       | (o, l1) => (o, l1) end
-  | World WRead k =>
-      match w_in w with
-      | [] => runl ip h w (k VNil)
-      | l :: r => runl ip h {| w_in := r; w_out := w_out w |} (k (VStr l)) end
-  | World (WPrint s) k => runl ip h {| w_in := w_in w; w_out := w_out w ++ s ++ [10%N] |} (k VNil)
+  | World op k => let (w', r) := wstep w op in match r with inl v => runl ip h w' (k v) | inr e => (Done h w' (inr e) 0%nat, []) end
   end.
 End RunL.
 
@@ -71,4 +67,4 @@ Fixpoint bsl (n:nat) (ip:list positive) (h:heap) (w:world) (tk:task) : outl :=
 (* main.main on a program: the list of delayed expressions whose evaluation begins *)
 Definition trace_main (fuel:nat) (prog:ast) (stdin:list (list N)) : outl :=
   let (h, t) := alloc heap0 prog {| funs := []; args := [] |} in
-  bsl fuel [] h {| w_in := stdin; w_out := [] |} (TComp (call (PFormat (VThunk t) false))).
+  bsl fuel [] h (world_start stdin []) (TComp (call (PFormat (VThunk t) false))).
